@@ -11,6 +11,7 @@ import (
 	"math/big"
 	"net"
 	"sync"
+	"sync/atomic"
 	"time"
 
 	"github.com/xelaj/mtproto/telegram/verifh/ref"
@@ -169,6 +170,8 @@ type HSParams struct {
 	PadSeed           uint64
 	ExtraFingerprints []int64 // offered before the real one
 	FingerprintsAfter []int64 // offered after the real one
+	// Splits: the i-th reply of the exchange reaches the client in two TCP segments, cut after Splits[i] bytes (0: whole)
+	Splits []int
 }
 
 // Fault is the single inconsistency injected into an otherwise conformant key exchange (C07).
@@ -178,8 +181,11 @@ type Fault struct {
 	Kind  string // flip | random | other | zero | empty | one-wrong | several-wrong | flip-fp | prefix-flip | content-flip | hash2 | hash3 | random-hash | params_fail | gen_retry | gen_fail
 	Bit   int
 	// OtherFP: resPQ.fingerprints "other-clients-key": the only fingerprint offered
-	OtherFP int64  `json:",omitempty"`
-	Rand    []byte // 16 random bytes for "random"
+	OtherFP int64 `json:",omitempty"`
+	// Code, Text: kind "rpc_error": the reply is rpc_error(Code, Text) instead of the constructor the step expects
+	Code int32  `json:",omitempty"`
+	Text string `json:",omitempty"`
+	Rand []byte // 16 random bytes for "random"
 }
 
 // HSObs is what the server learnt during a key exchange.
@@ -194,6 +200,17 @@ type HSObs struct {
 	Err                          string
 	PQ                           []byte
 	ClientP, ClientQ             []byte
+	// Got: messages of the exchange received from the client; Sent: replies completely written to the socket;
+	// LastSentMs: when the last one was (unix ms). Written by the connection's goroutine, read with atomic loads.
+	Got, Sent  int32
+	LastSentMs int64
+}
+
+// Handshakes returns the key exchanges seen so far.
+func (s *Server) Handshakes() []*HSObs {
+	s.mu.Lock()
+	defer s.mu.Unlock()
+	return append([]*HSObs{}, s.HS...)
 }
 
 // Barrier lets n parties proceed together (or each on its own after the timeout).
@@ -220,6 +237,11 @@ func (b *Barrier) Wait() {
 }
 
 type Server struct {
+	// RollingSalts > 0: that many of the next content-related messages each find their salt just retired (atomic)
+	RollingSalts int32
+	// SeqStart: where a connection's seq_no counter starts (a session that has been alive for a long time: the int32
+	// on the wire passes 2^31 and goes on with negative values)
+	SeqStart int32
 	// DHBarrier, when set, is passed before server_DH_params_ok is sent
 	DHBarrier *Barrier
 	Name      string
@@ -325,7 +347,7 @@ func (s *Server) acceptLoop() {
 			tc.SetLinger(0)
 		}
 		s.mu.Lock()
-		conn := &Conn{S: s, c: c, ID: len(s.conns) + 1}
+		conn := &Conn{S: s, c: c, ID: len(s.conns) + 1, seqNo: s.SeqStart}
 		s.conns = append(s.conns, conn)
 		s.mu.Unlock()
 		s.log(Event{Kind: "conn-open", Conn: conn.ID})
@@ -364,6 +386,7 @@ type Conn struct {
 	// handshake state
 	hs              *HSObs
 	hsp             HSParams
+	plainSent       int
 	a               *big.Int
 	lastClientMsgID int64
 }
@@ -491,7 +514,16 @@ func (c *Conn) serve() {
 func (c *Conn) sendPlain(body []byte) error {
 	w := &W{}
 	w.I64(0).I64(c.S.nextMsgID(1)).U32(uint32(len(body))).Raw(body)
-	return c.WriteFrame(w.B)
+	if c.plainSent < len(c.hsp.Splits) {
+		c.SplitNext = c.hsp.Splits[c.plainSent]
+	}
+	c.plainSent++
+	err := c.WriteFrame(w.B)
+	if err == nil && c.hs != nil {
+		atomic.StoreInt64(&c.hs.LastSentMs, time.Now().UnixMilli())
+		atomic.AddInt32(&c.hs.Sent, 1)
+	}
+	return err
 }
 
 func flipBit(b []byte, bit int) []byte {
@@ -583,6 +615,9 @@ func (c *Conn) plain(f []byte) error {
 	ctor := br.U32()
 	c.S.log(Event{Kind: "plain", Conn: c.ID, MsgID: msgID, Ctor: fmt.Sprintf("%08x", ctor), Len: len(body)})
 	flt := c.S.Fault
+	if c.hs != nil && ctor != IDReqPQ {
+		atomic.AddInt32(&c.hs.Got, 1)
+	}
 	switch ctor {
 	case IDReqPQ:
 		c.hsp = c.S.NextHS()
@@ -590,6 +625,7 @@ func (c *Conn) plain(f []byte) error {
 		c.S.mu.Lock()
 		c.S.HS = append(c.S.HS, c.hs)
 		c.S.mu.Unlock()
+		atomic.AddInt32(&c.hs.Got, 1)
 		if br.Err != nil {
 			return errors.New("req_pq malformed")
 		}
@@ -599,6 +635,9 @@ func (c *Conn) plain(f []byte) error {
 			pqb = ref.LeftPad(pqb, 8)
 		}
 		c.hs.PQ = pqb
+		if flt.at("resPQ", "kind") && flt.Kind == "rpc_error" {
+			return c.sendPlain(RpcError(flt.Code, flt.Text))
+		}
 		nonce, sn := c.hs.Nonce, c.hs.ServerNonce
 		if flt.at("resPQ", "nonce") {
 			nonce = flt.corrupt(nonce, sn)
@@ -673,6 +712,9 @@ func (c *Conn) plain(f []byte) error {
 			return errors.New("p_q_inner_data: pq/p/q mismatch")
 		}
 		c.hs.NewNonce = newNonce
+		if flt.at("dhParams", "kind") && flt.Kind == "rpc_error" {
+			return c.sendPlain(RpcError(flt.Code, flt.Text))
+		}
 		if flt.at("dhParams", "kind") { // server_DH_params_fail with correct nonces
 			w := &W{}
 			w.U32(IDServerDHFail).Raw(c.hs.Nonce).Raw(c.hs.ServerNonce).Raw(ref.SHA1(newNonce)[4:20])
@@ -816,6 +858,9 @@ func (c *Conn) plain(f []byte) error {
 			// the server side considers the key established in any case; whether the client uses it is the point of C07
 			c.S.Store.Put(authKey, c.hs.Salt)
 		}
+		if flt.at("dhGen", "kind") && flt.Kind == "rpc_error" {
+			return c.sendPlain(RpcError(flt.Code, flt.Text))
+		}
 		o := &W{}
 		o.U32(ctorOut).Raw(oNonce).Raw(oSN).Raw(hash)
 		return c.sendPlain(o.B)
@@ -855,6 +900,14 @@ func (c *Conn) encrypted(f []byte) {
 		ev.Body = hex.EncodeToString(env.Body)
 	}
 	c.S.log(ev)
+	if env.SeqNo&1 == 1 && atomic.LoadInt32(&c.S.RollingSalts) > 0 {
+		// the server goes through salts quickly: each of the next content-related messages arrives just after the salt
+		// it carries has been retired
+		atomic.AddInt32(&c.S.RollingSalts, -1)
+		c.S.Store.SetSalt(f[:8], ki.Salt+1)
+		ki = c.S.Store.Get(f[:8])
+		c.S.log(Event{Kind: "rotate", Conn: c.ID, Note: fmt.Sprintf("salt=%d", ki.Salt)})
+	}
 	ok := env.Salt == ki.Salt
 	if c.S.SaltOK != nil {
 		ok = c.S.SaltOK(c, env)
